@@ -195,7 +195,7 @@ func (s *stringObject) getOwnPropIdx(idx valueInt) Value {
 				enumerable: true,
 			}
 		}
-		return nil
+		return s.baseObject.getOwnPropStr(idx.string())
 	}
 
 	return s.baseObject.getOwnPropStr(idx.string())
